@@ -230,8 +230,12 @@ Section Validio.
     match e with
     | Some _ => (w', e, evs)
     | None => if forallb (forallb enc) row then (w', None, evs)
-              else ({| w_sts := w_sts w'; w_loc := w_loc w; w_rows := w_rows w |},
-                    Some (format_error {| l_line := 0; l_cell := 0 |}), evs)
+              else
+                (* the row is refused after validate_row (and, for fixed data, the row writer's own item loop) has put
+                   the cursor back to the first cell; an unvalidated header row of delimited data leaves it alone *)
+                let l := if Nat.leb (c_header c) (l_line (w_loc w)) || df_fixed (c_fmt c) then set_cell (w_loc w) 0 else w_loc w in
+                ({| w_sts := w_sts w'; w_loc := l; w_rows := w_rows w |},
+                 Some (format_error {| l_line := 0; l_cell := 0 |}), evs)
     end.
   Definition writer_close (c : cid) (w : wstate) : list CS * option err * list event := close c (w_sts w) (w_loc w).
 
